@@ -11,9 +11,13 @@
   `emax = 2^(bits-p-1)`), in particular `fmtF32 = (32, 24, 128)` and `fmtF64 = (64, 53, 1024)`
   (`Flt.valid_f32`, `Flt.valid_f64`), every target width `W = U::BITS` (so all digit widths and all
   digit counts, powers of two or not), signed and unsigned.
-  The bnum-integer side is modelled at VALUE level (`v < 2^W`, see the header of Model/Float.lean);
-  the digit-level `bits/bit/shl/shr/trailing_zeros/cast` are proved against those value-level meanings
-  in the Shift / BitOps / Cast properties.
+  Two layers.  Model/Float.lean takes the bnum integer at VALUE level (`v < 2^W`); Model/FloatD.lean
+  (`FltD.*`) is the DIGIT-LEVEL model: the same generic functions instantiated at `BUint<N>`, calling
+  `UI.bits`, `UI.bit`, the unsuffixed `UI.shr dbg` / `UI.shl dbg`, `UI.trailingZeros`, the casts to / from
+  the mantissa primitive, `II.unsignedAbs`, the unsuffixed `neg`, `>=`, `MIN`/`MAX`.  Lemmas/FloatD.lean
+  proves that the digit-level functions refine the value-level ones (same `Outcome`, same pattern), so
+  every theorem below transfers to digit lists: section "digit level" at the end (`…_specD`).  The
+  Drive handler answers with the digit-level model.
 
   Spec: Bnum.Spec.Float — `rne p v` (formula), `encodeNat` (pattern of a representable natural number,
   +∞ from `2^emax`), `intToFloat` (sign-symmetric), `floatToInt` (NaN ↦ 0, ±∞ ↦ bounds, else
@@ -29,6 +33,7 @@
   statements (no excluded binade).  `from_f32_regression` pins the former counterexample.
 -/
 import Bnum.Lemmas.Float
+import Bnum.Lemmas.FloatD
 namespace Bnum.C14
 open Bnum Bnum.Spec Bnum.Flt
 
@@ -189,5 +194,59 @@ example : buintFromFloat fmtF32 8 0x40200000 = 2 ∧ bintFromFloat fmtF32 8 0xc0
 theorem from_f32_regression :
     buintFromFloat fmtF32 8 0x3f400000 = 0 ∧ buintFromFloat fmtF32 8 0x3f7fffff = 0 ∧
       bintFromFloat fmtF32 8 0xbf400000 = 0 := by decide
+
+/-! ## digit level (Model/FloatD.lean): the same statements on digit lists
+
+  `w = 2^s` for the integer → float direction (the digit index arithmetic of `BUint::bit` uses
+  `>> BIT_SHIFT` / `& (BITS-1)`); `s < 32` covers every digit type (u8 … u64: `s = 3 … 6`).
+  The float → integer direction holds for every digit width. -/
+
+/-- digit-level `CastFrom<BUint<N>> for f32/f64`: never panics (either build mode) and returns the
+    pattern of `rne p (U a)` / +∞ -/
+theorem floatFromUint_specD {F : FloatFmt} (hF : F.Valid) {s n : Nat} (hs : s < 32) (dbg : Bool)
+    {a : List Nat} (ha : WF (2 ^ s) n a) :
+    FltD.floatFromBUint F dbg (2 ^ s) a = .ok (natToFloat F.spec (U (2 ^ s) a)) := by
+  rw [FltD.floatFromBUint_refines (by have := hF.hp; omega) hs dbg ha]
+  exact castFloatFromUint_spec hF _ dbg _
+/-- `2^24 + 1` as `BUint<4>` over u8 digits ↦ `2^24` (tie to even), `u32::MAX`-like carry over u16 digits -/
+example : FltD.floatFromBUint fmtF32 true 8 [1, 0, 0, 1] = .ok 0x4b800000 := by decide
+example : FltD.floatFromBUint fmtF32 false 16 [0xffff, 0xffff] = .ok 0x4f800000 := by decide
+
+/-- digit-level `CastFrom<BInt<N>> for f32/f64` -/
+theorem floatFromInt_specD {F : FloatFmt} (hF : F.Valid) {s n : Nat} (hs1 : 1 ≤ s) (hs : s < 32)
+    (hn : 1 ≤ n) (dbg : Bool) {a : List Nat} (ha : WF (2 ^ s) n a) :
+    FltD.floatFromBInt F dbg (2 ^ s) a = .ok (intToFloat F.spec (S (2 ^ s) a)) := by
+  rw [FltD.floatFromBInt_refines (by have := hF.hp; omega) hs1 hs hn dbg ha]
+  exact floatFromInt_digits hF (Nat.pow_pos (by decide)) hn dbg ha
+/-- `-1` as `BInt<2>` over u8 digits ↦ `-1.0f64` -/
+example : FltD.floatFromBInt fmtF64 true 8 [0xff, 0xff] = .ok 0xbff0000000000000 := by decide
+
+/-- digit-level `CastFrom<f32/f64> for BUint<N>`: never panics, well-formed digits, and the value is
+    NaN ↦ 0, ±∞ ↦ MAX / 0, else the truncated value clamped to `[0, MAX]` -/
+theorem uintFromFloat_specD {F : FloatFmt} (hF : F.Valid) (dbg : Bool) {w n : Nat} (hw : 1 ≤ w) (hn : 1 ≤ n)
+    {x : Nat} (hx : x < 2 ^ F.bits) :
+    ∃ r, FltD.buintFromFloat F dbg w n x = .ok r ∧ WF w n r ∧
+      U w r = floatToInt F.spec false (M w n) x := by
+  obtain ⟨r, h1, h2, h3⟩ := FltD.buintFromFloat_refines hF dbg hw hn hx
+  exact ⟨r, h1, h2, by rw [h3, buintFromFloat_spec hF _ hx]; rfl⟩
+example : FltD.buintFromFloat fmtF32 true 8 3 0x4b000001 = .ok [1, 0, 0x80] := by decide
+example : FltD.buintFromFloat fmtF32 true 8 3 0x3f400000 = .ok [0, 0, 0] := by decide
+
+/-- digit-level `CastFrom<f32/f64> for BInt<N>`: never panics (the unsuffixed `-` cannot overflow), and
+    the two's-complement pattern / signed value is NaN ↦ 0, ±∞ ↦ MAX / MIN, else the truncated value
+    clamped to `[MIN, MAX]` -/
+theorem intFromFloat_specD {F : FloatFmt} (hF : F.Valid) (dbg : Bool) {w n : Nat} (hw : 2 ≤ w) (hn : 1 ≤ n)
+    {x : Nat} (hx : x < 2 ^ F.bits) :
+    ∃ r, FltD.bintFromFloat F dbg w n x = .ok r ∧ WF w n r ∧
+      U w r = floatToInt F.spec true (M w n) x ∧
+      S w r = toInt (M w n) (floatToInt F.spec true (M w n) x) := by
+  obtain ⟨r, h1, h2, h3⟩ := FltD.bintFromFloat_refines hF dbg hw hn hx
+  have hW : 1 ≤ w * n := Nat.mul_pos (by omega) hn
+  have hu : U w r = floatToInt F.spec true (M w n) x := by
+    rw [h3, bintFromFloat_spec hF hW hx]; rfl
+  exact ⟨r, h1, h2, hu, by rw [S_eq h2, hu]⟩
+/-- `-(2^23 + 1) as i24 = MIN`, `-2.5 as i16 = -2` (u8 digits) -/
+example : FltD.bintFromFloat fmtF32 true 8 3 0xcb000001 = .ok [0, 0, 0x80] := by decide
+example : FltD.bintFromFloat fmtF32 false 8 2 0xc0200000 = .ok [0xfe, 0xff] := by decide
 
 end Bnum.C14
